@@ -269,7 +269,7 @@ func thesaurusQueries(c *ctx, seg segment.Segment, spec sx.V) (bad string) {
 }
 
 func checkC12(c *ctx) {
-	c.Rule = "batches mixing ordinary documents with synonym documents (1-3 thesauri interleaved in the batch, shared and distinct synonyms, the same term defined by several documents); observed: each thesaurus' term list, and (synonym, document) pairs under ALL exclusion bitmaps over up to 5 defining documents, unknown thesaurus / term, lookup histories in which the caller recycles the previous list and iterator (prealloc), ordinary dictionaries; in memory and after persist+open; files decoded by the extracted parser; expected = extracted spec_of_batch; non-trivial = >= 2 synonym documents"
+	c.Rule = "batches mixing ordinary documents with synonym documents (1-3 thesauri interleaved in the batch, shared and distinct synonyms, the same term defined by several documents); observed: each thesaurus' term list, and (synonym, document) pairs under ALL exclusion bitmaps over up to 5 defining documents, unknown thesaurus / term, ranged listings [start, end) from the greatest / any term, lookup histories in which the caller recycles the previous list and iterator (prealloc) and abandons some iterations after the first pair, lists carried from one same-shaped segment to the next, ordinary dictionaries; in memory and after persist+open; files decoded by the extracted parser; expected = extracted spec_of_batch; non-trivial = >= 2 synonym documents"
 	c.Assumptions = append(c.Assumptions, "input domain W6 (>= 1 synonym per definition, non-empty strings); thesauri may be named like ordinary fields")
 	if bad := crossSegmentRecycling(c, c.n(20, 300)); bad != "" {
 		c.Violation("C12 "+bad, false)
